@@ -5,6 +5,7 @@ package main
 import (
 	"fmt"
 	"go/types"
+	"strings"
 
 	"golang.org/x/tools/go/ssa"
 )
@@ -28,7 +29,9 @@ func (x *Exec) mapKeySort(mt *types.Map) Sort {
 		w := 0
 		for _, c := range cs {
 			if c.sort.K != KBV {
-				unsupported("map key struct %s with non-bitvector component", kt)
+				// a key with a component that is not a bit-vector (a string): an uninterpreted
+				// tuple sort with a constructor and projections (see tupleKey)
+				return Sort{K: KUnint, Name: tupleKeySortName(kt)}
 			}
 			w += c.sort.W
 		}
@@ -36,6 +39,48 @@ func (x *Exec) mapKeySort(mt *types.Map) Sort {
 	}
 	unsupported("map key type %s", kt)
 	return Sort{}
+}
+
+func tupleKeySortName(kt types.Type) string {
+	n := typeKey(kt)
+	var b strings.Builder
+	b.WriteString("Key_")
+	for _, r := range n {
+		if r >= 'a' && r <= 'z' || r >= 'A' && r <= 'Z' || r >= '0' && r <= '9' {
+			b.WriteRune(r)
+		} else {
+			b.WriteByte('_')
+		}
+	}
+	return b.String()
+}
+
+// tupleKey builds the key term of a struct key with non-bit-vector components: mk(c1..cn), with the
+// instances proj_i(mk(c1..cn)) == c_i, which make the constructor injective on the terms that occur
+// (Go compares struct keys field by field).
+func (x *Exec) tupleKey(st *State, kt types.Type, ts []*Term) *Term {
+	ks := Sort{K: KUnint, Name: tupleKeySortName(kt)}
+	k := x.D.Fun("mk"+ks.Name, ks, ts...)
+	if st != nil {
+		for i, t := range ts {
+			st.Assume(Eq(x.D.Fun(fmt.Sprintf("proj%d%s", i, ks.Name), t.Sort, k), t))
+		}
+	}
+	return k
+}
+
+// tupleKeyComps decomposes a key term of a tuple sort into its components (projections), with the
+// instance k == mk(proj_0(k), ...).
+func (x *Exec) tupleKeyComps(st *State, kt types.Type, k *Term) []*Term {
+	ks := Sort{K: KUnint, Name: tupleKeySortName(kt)}
+	var ts []*Term
+	for i, c := range x.compsOf(kt) {
+		ts = append(ts, x.D.Fun(fmt.Sprintf("proj%d%s", i, ks.Name), c.sort, k))
+	}
+	if st != nil {
+		st.Assume(Eq(k, x.D.Fun("mk"+ks.Name, ks, ts...)))
+	}
+	return ts
 }
 
 func (x *Exec) mapKeyTerm(mt *types.Map, k Value) *Term {
@@ -47,6 +92,9 @@ func (x *Exec) mapKeyTerm(mt *types.Map, k Value) *Term {
 		return kv.Ref
 	case *StructV:
 		ts := x.flatten(kt, kv)
+		if x.mapKeySort(mt).K == KUnint {
+			return x.tupleKey(x.keySt, kt, ts)
+		}
 		r := ts[0]
 		for _, t := range ts[1:] {
 			r = Concat(r, t)
@@ -99,6 +147,7 @@ func (x *Exec) mapLen(st *State, m *Term, mt *types.Map) *Term {
 }
 
 func (x *Exec) mapGet(st *State, m *Term, mt *types.Map, k Value) (Value, *Term) {
+	x.keySt = st
 	kt := x.mapKeyTerm(mt, k)
 	dom := x.mapDom(st, mt)
 	in := And(Neq(m, IntConstI(0)), Select(Select(dom, m), kt))
@@ -115,6 +164,7 @@ func (x *Exec) mapGet(st *State, m *Term, mt *types.Map, k Value) (Value, *Term)
 }
 
 func (x *Exec) mapUpdate(st *State, m *Term, mt *types.Map, k, v Value) {
+	x.keySt = st
 	kt := x.mapKeyTerm(mt, k)
 	ks := x.mapKeySort(mt)
 	dname := mapPrefix(mt) + ".dom"
@@ -133,6 +183,7 @@ func (x *Exec) mapUpdate(st *State, m *Term, mt *types.Map, k, v Value) {
 }
 
 func (x *Exec) mapDelete(st *State, m *Term, mt *types.Map, k Value) {
+	x.keySt = st
 	kt := x.mapKeyTerm(mt, k)
 	dname := mapPrefix(mt) + ".dom"
 	dom := x.mapDom(st, mt)
@@ -183,10 +234,14 @@ func (x *Exec) next(fr *Frame, st *State, in *ssa.Next) Value {
 	case *types.Struct:
 		cs := x.compsOf(kt)
 		var ts []*Term
-		pos := ks.W
-		for _, c := range cs {
-			ts = append(ts, Extract(pos-1, pos-c.sort.W, kterm))
-			pos -= c.sort.W
+		if ks.K == KUnint {
+			ts = x.tupleKeyComps(st, kt, kterm)
+		} else {
+			pos := ks.W
+			for _, c := range cs {
+				ts = append(ts, Extract(pos-1, pos-c.sort.W, kterm))
+				pos -= c.sort.W
+			}
 		}
 		kv, _ = x.unflatten(kt, ts)
 	case *types.Pointer:
